@@ -111,7 +111,7 @@ func genC13(r *rand.Rand) *c13Case {
 	cs := &c13Case{Tmpl: choose(r, c13Templates)}
 	cs.Code = choose(r, []string{"301", "302", "303", "307", "308", "300", "399", "301", "302"})
 	if r.Intn(12) == 0 {
-		cs.Code = choose(r, []string{"200", "299", "400", "404", "0", "-1", "abc", "3000"})
+		cs.Code = choose(r, []string{"200", "299", "400", "404", "0", "-1", "abc", "3000", "99999999999999999999", "9223372036854775807", "301.0"})
 	}
 	cs.Strip = choose(r, []string{"", "", "/p", "/p/q"})
 	cs.Prepend = choose(r, []string{"", "", "/pre", "/pre/x"})
@@ -315,17 +315,30 @@ func c13Redirect(c *ctx) {
 }
 
 type c13Self struct {
-	Scheme string // scheme of the redirect target
-	Path   string // route path
-	Req    string // request raw path
-	TLS    bool
-	XFP    string // X-Forwarded-Proto sent by the client ("" = none)
-	Port   string
+	Scheme   string // scheme of the redirect target
+	Path     string // route path
+	Req      string // request raw path
+	TLS      bool
+	XFP      string // X-Forwarded-Proto sent by the client ("" = none)
+	Port     string
+	ReqHost  string // spelling of the host in the request: any case, with or without the scheme's default port
+	TmplHost string // spelling of the host in the redirect target
+	HostLess bool   // the redirect route has no host (target https://$host$path) and nothing else matches
 }
 
 func genC13Self(r *rand.Rand) *c13Self {
-	return &c13Self{Scheme: choose(r, []string{"http", "https"}), Path: choose(r, []string{"/", "/a"}),
+	s := &c13Self{Scheme: choose(r, []string{"http", "https"}), Path: choose(r, []string{"/", "/a"}),
 		Req: choose(r, []string{"/", "/a", "/a/b", "/x"}), TLS: r.Intn(2) == 0, XFP: choose(r, []string{"", "", "http", "https"})}
+	s.ReqHost, s.TmplHost = "self.test", "self.test"
+	switch r.Intn(6) {
+	case 0:
+		s.ReqHost = choose(r, []string{"SELF.TEST", "Self.Test", "self.test:DEFAULT", "SELF.test:DEFAULT"})
+	case 1:
+		s.TmplHost = choose(r, []string{"Self.Test", "SELF.test"}) // (a port in front of $path would not be a valid URL)
+	case 2:
+		s.HostLess = true
+	}
+	return s
 }
 
 // c13SelfCheck: a redirect pointing back at the request's own scheme, host and
@@ -333,7 +346,14 @@ func genC13Self(r *rand.Rand) *c13Self {
 func c13SelfCheck(c *ctx, s *c13Self) {
 	c.R.Eval(1)
 	in := map[string]any{"Self": s}
+	if s.ReqHost == "" {
+		s.ReqHost, s.TmplHost = "self.test", "self.test"
+	}
 	script := fmt.Sprintf("route add self self.test%s %s://self.test$path opts \"redirect=301\"\nroute add fallback / http://10.1.1.1:80/\n", s.Path, s.Scheme)
+	if s.HostLess {
+		c13SelfHostLess(c, s)
+		return
+	}
 	t, err := newTable(script)
 	if err != nil {
 		c.R.Violate("c13:table", err.Error(), in)
@@ -343,16 +363,29 @@ func c13SelfCheck(c *ctx, s *c13Self) {
 	if s.XFP != "" {
 		hdr["X-Forwarded-Proto"] = s.XFP
 	}
-	req, err := c13Request("self.test", s.Req, "", s.TLS, hdr)
-	if err != nil {
-		return
-	}
 	own := "http"
 	if s.TLS {
 		own = "https"
 	}
 	if s.XFP != "" {
 		own = s.XFP // the scheme the client used towards the first hop
+	}
+	// host spellings: the default port of the scheme in question, any letter case (only where scheme and connection agree:
+	// a default port belongs to one scheme)
+	defPort := map[string]string{"http": ":80", "https": ":443"}
+	reqHost := strings.Replace(s.ReqHost, ":DEFAULT", defPort[own], 1)
+	tmplHost := strings.Replace(s.TmplHost, ":DEFAULT", defPort[s.Scheme], 1)
+	if (strings.Contains(s.ReqHost, ":") || strings.Contains(s.TmplHost, ":")) && (s.XFP != "" || own != s.Scheme) {
+		reqHost, tmplHost = "self.test", "self.test"
+	}
+	script = fmt.Sprintf("route add self self.test%s %s://%s$path opts \"redirect=301\"\nroute add fallback / http://10.1.1.1:80/\n", s.Path, s.Scheme, tmplHost)
+	if t, err = newTable(script); err != nil {
+		c.R.Violate("c13:table", err.Error(), in)
+		return
+	}
+	req, err := c13Request(reqHost, s.Req, "", s.TLS, hdr)
+	if err != nil {
+		return
 	}
 	matches := strings.HasPrefix(s.Req, s.Path)
 	stub := &c06Stub{}
@@ -378,12 +411,58 @@ func c13SelfCheck(c *ctx, s *c13Self) {
 			if s.XFP == "" {
 				sig += ":no-xfp-header"
 			}
-			c.R.Violate(sig, fmt.Sprintf("%s request %s (X-Forwarded-Proto %q) to a route redirecting to %s://self.test$path: got %d Location %q, want the fallback route", own, s.Req, s.XFP, s.Scheme, rec.Code, rec.Header().Get("Location")), in)
+			if reqHost != "self.test" || tmplHost != "self.test" {
+				sig += ":host-spelling"
+			}
+			c.R.Violate(sig, fmt.Sprintf("%s request %s for host %q (X-Forwarded-Proto %q) to a route redirecting to %s://%s$path: got %d Location %q, want the fallback route", own, s.Req, reqHost, s.XFP, s.Scheme, tmplHost, rec.Code, rec.Header().Get("Location")), in)
 		}
 	default:
-		want := s.Scheme + "://self.test" + s.Req
+		want := s.Scheme + "://" + tmplHost + s.Req
 		if rec.Code != 301 || rec.Header().Get("Location") != want {
 			c.R.Violate("c13:self-redirect-overskipped", fmt.Sprintf("%s request %s: got %d Location %q, want 301 %q", own, s.Req, rec.Code, rec.Header().Get("Location"), want), in)
+		}
+	}
+}
+
+// c13SelfHostLess: the self-pointing redirect sits on a host-less route and no other route matches: it is skipped, and the
+// request has no route (it must not be redirected to itself).
+func c13SelfHostLess(c *ctx, s *c13Self) {
+	in := map[string]any{"Self": s}
+	t, err := newTable(fmt.Sprintf("route add self %s %s://$host$path opts \"redirect=301\"\nroute add other other.test/ http://10.1.1.2:80/\n", s.Path, s.Scheme))
+	if err != nil {
+		c.R.Violate("c13:table", err.Error(), in)
+		return
+	}
+	req, err := c13Request("any.test", s.Req, "", s.TLS, nil)
+	if err != nil {
+		return
+	}
+	own := "http"
+	if s.TLS {
+		own = "https"
+	}
+	stub := &c06Stub{}
+	gc := route.NewGlobCache(10)
+	hp := &proxy.HTTPProxy{Config: config.Proxy{NoRouteStatus: 404}, Transport: stub,
+		Lookup: func(r *http.Request) *route.Target {
+			return t.Lookup(r, "", route.Picker["rr"], route.Matcher["prefix"], gc, false)
+		}}
+	rec := httptest.NewRecorder()
+	if p := safely(func() { hp.ServeHTTP(rec, req) }); p != "" {
+		c.R.Violate("c13:panic", p, in)
+		return
+	}
+	c.R.Count("self_redirect_cases", 1)
+	matches := strings.HasPrefix(s.Req, s.Path)
+	switch {
+	case matches && own == s.Scheme:
+		c.R.Nontrivial(fmt.Sprintf("self-hostless %+v", *s))
+		if rec.Code != 404 || stub.hits.Load() != 0 {
+			c.R.Violate("c13:self-redirect-not-skipped:host-less-route", fmt.Sprintf("%s request any.test%s matches only the host-less route redirecting to %s://$host$path, i.e. to itself: got %d Location %q, want the no-route answer", own, s.Req, s.Scheme, rec.Code, rec.Header().Get("Location")), in)
+		}
+	case matches:
+		if want := s.Scheme + "://any.test" + s.Req; rec.Code != 301 || rec.Header().Get("Location") != want {
+			c.R.Violate("c13:self-redirect-overskipped", fmt.Sprintf("%s request any.test%s: got %d Location %q, want 301 %q", own, s.Req, rec.Code, rec.Header().Get("Location"), want), in)
 		}
 	}
 }
